@@ -82,6 +82,10 @@ def correspond(cfg, pid, binp, tier, seed, scratch, run_driver, obligation_broke
     floors = cfg.get("floors", {})
     for cat, mn in floors.items():
         if agg["categories"].get(cat, 0) < mn and tier in ("quick", "thorough"):
+            if mism:
+                # a failing input was found: it is the report; the thin category is a consequence (a run cut short)
+                agg["notes"].append(f"category {cat} has {agg['categories'].get(cat,0)} cases, floor {mn}")
+                break
             raise Broken("generator-floor", f"category {cat} has {agg['categories'].get(cat,0)} cases, floor {mn}: run is inconclusive")
     return mism, agg
 
